@@ -247,14 +247,9 @@ structure Repo where
   lazy : List Loaded
   nextId : Nat
   searchPath : List Str
-  /-- ghost (not a variable of the C code): set once `register_internal` has re-used the key —
-      hence the recorded source — of a lazily loaded typelib for a typelib with ANOTHER header
-      (finding C17:eager-load-ignores-lazy-entry); only the hypotheses of `C17_inv_partial`
-      read it -/
-  staleKey : Bool
   deriving DecidableEq, Repr
 
-def Repo.init (searchPath : List Str) : Repo := ⟨[], [], 0, searchPath, false⟩
+def Repo.init (searchPath : List Str) : Repo := ⟨[], [], 0, searchPath⟩
 
 inductive Err where
   | notFound | mismatch | versionConflict
@@ -281,7 +276,9 @@ def eraseTbl (tbl : List Loaded) (ns : Str) : List Loaded :=
 inductive Status where
   | found (tl : Typelib)
   | conflict (loaded : Str)
-  | absent (isLazy : Bool)
+  /-- NULL without `version_conflict`; `lazyEntry` = the entry of the lazy table when `*lazy_status`
+      is TRUE (found there, but the caller did not allow a lazily loaded typelib) -/
+  | absent (lazyEntry : Option Loaded)
   deriving DecidableEq, Repr
 
 /-- `check_version_conflict` -/
@@ -296,8 +293,14 @@ def getRegisteredStatus (s : Repo) (ns : Str) (ver : Option Str) (allowLazy : Bo
   | some l => checkVersionConflict l.tl ver
   | none =>
     match lookupTbl s.lazy ns with
-    | none => .absent false
-    | some l => if !allowLazy then .absent true else checkVersionConflict l.tl ver
+    | none => .absent none
+    | some l =>
+      if !allowLazy then
+        -- "the caller has to load it eagerly, but another version is still a conflict"
+        match checkVersionConflict l.tl ver with
+        | .conflict v => .conflict v
+        | _ => .absent (some l)
+      else checkVersionConflict l.tl ver
 
 /-- `get_registered (repository, namespace, NULL)` -/
 def getRegistered (s : Repo) (ns : Str) : Option Typelib :=
@@ -339,12 +342,9 @@ def registerInternalWith (req : Req) (s : Repo) (source : Str) (lazy : Bool) (tl
       match lookupTbl s1.lazy tl.hdr.ns with
       | some l =>
         -- "transitioning from lazily loaded state": the key of the lazy entry (namespace and
-        -- SOURCE of the lazily loaded typelib) is stolen from the lazy table and re-used for
-        -- `typelib`, which `require_internal` / `load_typelib` obtained without looking at
-        -- the lazy entry; the lazily loaded typelib itself is dropped
+        -- source) is stolen from the lazy table and re-used in the table of loaded typelibs
         ({ s1 with lazy := eraseTbl s1.lazy tl.hdr.ns,
-                   typelibs := insertTbl s1.typelibs l.source tl,
-                   staleKey := s1.staleKey || decide (l.tl.hdr ≠ tl.hdr) }, .ok tl)
+                   typelibs := insertTbl s1.typelibs l.source tl }, .ok tl)
       | none => ({ s1 with typelibs := insertTbl s1.typelibs source tl }, .ok tl)
 
 /-- what `require_internal` holds after the search: the mapped file (its path and header) and
@@ -372,7 +372,14 @@ def requireInternal (fs : FS) : Nat → Repo → Str → Option Str → Bool →
     match getRegisteredStatus s ns ver lazy with
     | .found tl => (s, .ok tl)
     | .conflict _ => (s, .error .versionConflict)
-    | .absent _ =>
+    | .absent (some l) =>
+      -- loaded lazily before and required eagerly now: the dependencies of the typelib that is
+      -- there are loaded and it moves to the loaded typelibs; no file is searched
+      -- (`g_irepository_get_typelib_path` = the source of the lazy entry)
+      registerInternalWith
+        (fun s' dn dv => requireInternal fs fuel s' dn (some dv) false s'.searchPath)
+        s l.source false l.tl
+    | .absent none =>
       match findFile fs ns ver path with
       | none => (s, .error .notFound)
       | some f =>
@@ -396,15 +403,20 @@ def requirePrivate (fs : FS) (fuel : Nat) (s : Repo) (dir ns : Str) (ver : Optio
 /-- `g_typelib_new_from_memory` + `g_irepository_load_typelib`: registered at this version ⇒ the
     namespace is returned and the new typelib is not registered; registered at another version
     (`version_conflict` set by the failed lookup) ⇒ NAMESPACE_VERSION_CONFLICT; else registration
-    under "<builtin>".  (A LAZILY registered namespace is not looked at without the LAZY flag:
-    `.absent true`, see `registerInternalWith`.) -/
+    under "<builtin>" — of the lazily loaded typelib when there is one (and the LAZY flag is absent),
+    else of the typelib passed in. -/
 def loadTypelib (fs : FS) (fuel : Nat) (s : Repo) (hdr : Hdr) (lazy : Bool) : Repo × Except Err Typelib :=
   let tl : Typelib := ⟨s.nextId, hdr⟩
   let s0 := { s with nextId := s.nextId + 1 }
   match getRegisteredStatus s0 hdr.ns (some hdr.ver) lazy with
   | .found t => (s0, .ok t)
   | .conflict _ => (s0, .error .versionConflict)
-  | .absent _ =>
+  | .absent (some l) =>
+    -- "loaded lazily before: keep that typelib and load it eagerly now"
+    registerInternalWith
+      (fun s' dn dv => requireInternal fs fuel s' dn (some dv) false s'.searchPath)
+      s0 builtinSource lazy l.tl
+  | .absent none =>
     registerInternalWith
       (fun s' dn dv => requireInternal fs fuel s' dn (some dv) false s'.searchPath)
       s0 builtinSource lazy tl
